@@ -4,6 +4,7 @@
 From Coq Require Import ZArith QArith List Bool Arith Permutation.
 From SKC Require Import Base.QBool Base.QList Model.Transform Model.Weights Theory.Transform Theory.Weights.
 From Coq Require Reals.
+From SKC Require Import Theory.RankPerm Theory.ScalerPerm.
 From SKC Require Theory.RealClosing.
 Import ListNotations.
 
@@ -63,6 +64,20 @@ Theorem C13_executed_cores_are_the_cores : forall v u,
   pvar_r v == pvar v /\ svar_r v == svar v /\ cov_r v u == cov v u.
 Proof. exact (fun v u => conj (pvar_r_correct v) (conj (svar_r_correct v) (cov_r_correct v u))). Qed.
 Print Assumptions C13_executed_cores_are_the_cores.
+
+(* order of the criteria: the normalisation (division by the sum of the per-criterion quantities) gives every
+   criterion the same weight wherever it is listed; and a per-criterion quantity that is a sum over all criteria
+   (CRITIC's sum of 1 - r_jk) does not depend on the order in which the other criteria are listed *)
+Theorem C13_normalised_weights_follow_their_criteria : forall sigma u,
+  Permutation sigma (seq 0 (length u)) ->
+  Forall2 Qeq (normalise (reindex 0 sigma u)) (reindex 0 sigma (normalise u)).
+Proof. intros sigma u P. exact (sum_scale_reindex sigma u P). Qed.
+Print Assumptions C13_normalised_weights_follow_their_criteria.
+
+Theorem C13_sum_over_criteria_order_independent : forall (g : list Q -> Q) cs cs',
+  Permutation cs cs' -> qsum (map g cs) == qsum (map g cs').
+Proof. intros g cs cs' P. apply Theory.QListFacts.qsum_perm. apply Permutation_map. exact P. Qed.
+Print Assumptions C13_sum_over_criteria_order_independent.
 
 (* EntropyWeighter, over the reals: the Shannon entropy of a criterion's probability column is at most ln n
    (Gibbs' inequality; 0 ln 0 = 0 as scipy.stats.entropy has it), so each diversity 1 - H / ln n lies in
